@@ -110,6 +110,21 @@ pub fn gen_spec(rng: &mut Rng, kind: u64, quick: bool) -> PackSpec {
             }
             items.push(CItem { data: rng.bytes(10), hint: Hint::No, src: Src::File });
         }
+        70..=73 => {
+            // clusters whose contents are all empty (a compressed cluster with no data at all), alone
+            // or next to a raw cluster
+            label.push_str("empty-contents");
+            let shape = kind - 70;
+            let seq: Vec<(Hint, usize)> = match shape {
+                0 => vec![(Hint::Yes, 0)],
+                1 => vec![(Hint::Yes, 0), (Hint::No, 12), (Hint::Yes, 0)],
+                2 => vec![(Hint::No, 0), (Hint::Yes, 0), (Hint::No, 0), (Hint::Detect, 0)],
+                _ => vec![(Hint::Yes, 0), (Hint::Yes, 9), (Hint::No, 0)],
+            };
+            for (hint, len) in seq {
+                items.push(CItem { data: rng.low_entropy(len), hint, src: src_of(rng) });
+            }
+        }
         6 => {
             // the deduplicating adder on contents below, at and above its 4 MiB buffering threshold
             label.push_str("dedup-big");
@@ -508,6 +523,11 @@ pub fn run(ctx: &mut Ctx) {
             2 => 2,
             5 => 5,
             6 => 6,
+            7 => 70,
+            16 => 71,
+            25 => 72,
+            34 => 73,
+            c if !ctx.quick() && c % 60 == 34 => 70 + (c / 60) % 4,
             c if !ctx.quick() && c % 190 == 8 => 6,
             c if !ctx.quick() && c % 170 == 7 => 5,
             c if c % 9 == 3 => 3,
@@ -525,6 +545,9 @@ pub fn run(ctx: &mut Ctx) {
             spec.comp = *crng.pick(&[Comp::None, Comp::Zstd(1), Comp::Lz4(1)]);
             spec.packaging = None;
             spec.dedup = true;
+        }
+        if (70..=73).contains(&kind) && spec.comp == Comp::None && case % 5 != 0 {
+            spec.comp = *crng.pick(&[Comp::Zstd(3), Comp::Lz4(3), Comp::Lzma(1)]);
         }
         if kind == 5 {
             spec.packaging = None;
